@@ -58,7 +58,8 @@ def ref_need_per_head(code, species, livestock_unit):
             _lsu["region"].setdefault(a3, r)
         t = pd.read_csv(d + "regional_conversion_factors.csv", index_col="animal")
         _lsu["factor"] = {(r, a): float(t[r][a] if not hasattr(t[r][a], "iloc") else t[r][a].iloc[-1]) for r in t.columns for a in t.index}
-    region = _lsu["region"].get(code, "Other")
+    # Eswatini: the model's country table says SWT, the FAO tables say SWZ (the herd model translates the code before any lookup)
+    region = _lsu["region"].get("SWZ" if code == "SWT" else code, "Other")
     one_lsu = 29000.0 / 12 / 4.187 * 1000 / 1e9
     return livestock_unit * one_lsu * _lsu["factor"][(region, species)]
 
